@@ -493,3 +493,44 @@ Example C01_xml_parser_code_nonvacuous :
   = Ret (Ok [(s "a", VMap [(s "-k", VStr (s "v")); (s "#text", VStr (s "hi")); (s "b", VList [VBool true; VStr []])])],
          ([TChar (s "z")], TermEOF)).
 Proof. exact xml_parser_code_example. Qed.
+
+(* ---- the glue between NewMapXml and the parser, translated from the current xml.go (GenProofs/PureG39.v): xmlToMap hands the
+   configured token stream of the bytes, the empty key, no attributes and the caller's cast flag to xmlToMapParser; composed with
+   the parser theorem, NewMapXml(doc, cast...) IS the model decoder on that stream.  newdec / usecd / setcr stand for
+   encoding/xml (fresh decoder, CustomDecoder's attributes copied in, XmlCharsetReader installed): any three functions. *)
+From Mxj Require GenProofs.PureG39.
+
+Theorem C01_xml_to_map_code : forall (parser : str -> list xattr -> xdecoder -> bool -> res entries) newdec usecd setcr st doc r,
+  fn_xmlToMap usecd parser newdec setcr st doc r
+  = PureG5.of_res (parser [] [] (PureG39.configured_decoder newdec usecd setcr st doc) r).
+Proof. exact PureG39.xml_to_map_code. Qed.
+Print Assumptions C01_xml_to_map_code.
+
+Theorem C01_xml_to_map_code_is_model : forall pf callskip o newdec usecd setcr st doc r,
+  PureG14.dec_view st o -> PureG.cast_view st o ->
+  forallb start_ok (fst (PureG39.configured_decoder newdec usecd setcr st doc)) = true ->
+  fn_xmlToMap usecd (PureG39.run_xmlToMapParser pf callskip st) newdec setcr st doc r
+  = PureG5.of_res (PureG39.xml_decode_entries pf (PureG.skip_of st callskip) o r (PureG39.configured_decoder newdec usecd setcr st doc)).
+Proof. exact PureG39.xml_to_map_code_is_model. Qed.
+Print Assumptions C01_xml_to_map_code_is_model.
+
+Theorem C01_new_map_xml_code_is_model : forall pf callskip o newdec usecd setcr st doc cast,
+  PureG14.dec_view st o -> PureG.cast_view st o ->
+  forallb start_ok (fst (PureG39.configured_decoder newdec usecd setcr st doc)) = true ->
+  fn_NewMapXml (PureG39.run_xmlToMap pf callskip newdec usecd setcr st) st doc cast
+  = PureG5.of_res (PureG39.xml_decode_entries pf (PureG.skip_of st callskip) o (PureG13.opt_flag cast)
+                     (PureG39.configured_decoder newdec usecd setcr st doc)).
+Proof. exact PureG39.new_map_xml_code_is_model. Qed.
+Print Assumptions C01_new_map_xml_code_is_model.
+
+Theorem C01_xml_decode_entries_is_xml_decode : forall pf skip o r p,
+  xml_decode pf skip o r (fst p) (snd p)
+  = match PureG39.xml_decode_entries pf skip o r p with Ok m => Ok (VMap m) | Err e => Err e | Panic => Panic end.
+Proof. exact PureG39.xml_decode_entries_value. Qed.
+Print Assumptions C01_xml_decode_entries_is_xml_decode.
+
+Theorem C01_custom_decoder_hides_charset_reader : forall parser newdec usecd setcr st st' doc r c,
+  g_CustomDecoder st = Some c -> g_CustomDecoder st' = Some c ->
+  fn_xmlToMap usecd parser newdec setcr st doc r = fn_xmlToMap usecd parser newdec setcr st' doc r.
+Proof. exact PureG39.xml_to_map_ignores_charset_reader_with_custom_decoder. Qed.
+Print Assumptions C01_custom_decoder_hides_charset_reader.
